@@ -134,6 +134,10 @@ fn risky(key: &str, value: &str) -> bool {
         return false;
     }
     let Ok(x) = value.trim().trim_start_matches('+').parse::<f64>() else { return false };
+    // a tiny parser recursion limit makes every later statement (SET / SHOW included) unparsable
+    if key.ends_with("recursion_limit") && x < 32.0 {
+        return true;
+    }
     let bound = if ["partition", "concurrency", "parallel", "thread"].iter().any(|w| key.contains(w)) { 64.0 } else { 1024.0 };
     !(x.abs() <= bound)
 }
@@ -163,6 +167,9 @@ impl Sess {
         self.rt.block_on(async {
             match tokio::time::timeout(std::time::Duration::from_secs(30), async { ctx.sql(q).await?.collect().await }).await {
                 Err(_) => Err(SqlErr::Timeout),
+                // the statement itself could not be parsed under the session's parser options:
+                // nothing can be said about SET / SHOW then (callers report it as inconclusive)
+                Ok(Err(e)) if e.to_string().contains("RecursionLimitExceeded") => Err(SqlErr::Timeout),
                 Ok(Err(e)) => Err(SqlErr::Failed(e.to_string())),
                 Ok(Ok(b)) => Ok(b),
             }
@@ -270,7 +277,7 @@ fn runtime_sweep(s: &Sess) -> Eval {
         }
         let Some(Some(t)) = before.get(k) else { continue };
         match s.set(k, t) {
-            Err(SqlErr::Timeout) => return Eval::Inconclusive("timeout in SET".into()),
+            Err(SqlErr::Timeout) => return Eval::Inconclusive("SET timed out or could not be parsed under the session's parser options".into()),
             Err(SqlErr::Failed(e)) => {
                 return Eval::Finding(Finding { class: format!("runtime-reported-text-rejected:{}", shape_of(t)), message: format!("SHOW reports {k} = {t:?} but SET {k} = {} fails: {}", quote(t), truncate(&e, 300)) });
             }
@@ -349,7 +356,7 @@ pub fn evaluate(case: &Case, with_runtime_sweep: bool) -> Eval {
                         shadow = probe;
                         applied += 1;
                     }
-                    Err(SqlErr::Timeout) => return Eval::Inconclusive("timeout in SET".into()),
+                    Err(SqlErr::Timeout) => return Eval::Inconclusive("SET timed out or could not be parsed under the session's parser options".into()),
                     Err(SqlErr::Failed(e)) => {
                         return Eval::Finding(Finding { class: format!("sql-set-rejects-valid:{k}"), message: format!("ConfigOptions::set({k:?}, {v:?}) succeeds but SET {k} = {} fails: {}", quote(&v), truncate(&e, 300)) });
                     }
@@ -386,7 +393,7 @@ pub fn evaluate(case: &Case, with_runtime_sweep: bool) -> Eval {
             value
         };
         match s.set(&key, &value) {
-            Err(SqlErr::Timeout) => return Eval::Inconclusive("timeout in SET".into()),
+            Err(SqlErr::Timeout) => return Eval::Inconclusive("SET timed out or could not be parsed under the session's parser options".into()),
             Err(SqlErr::Failed(_)) => {
                 labels.push("rejected".into());
                 let after = nrm(sqltry!(s.show("ALL"), "SHOW ALL"), rt);
@@ -420,7 +427,7 @@ pub fn evaluate(case: &Case, with_runtime_sweep: bool) -> Eval {
                             labels.push("normalised-spelling".into());
                         }
                         match s.set(&key, t) {
-                            Err(SqlErr::Timeout) => return Eval::Inconclusive("timeout in SET".into()),
+                            Err(SqlErr::Timeout) => return Eval::Inconclusive("SET timed out or could not be parsed under the session's parser options".into()),
                             Err(SqlErr::Failed(e)) => {
                                 return Eval::Finding(Finding {
                                     class: format!("runtime-reported-text-rejected:{}", shape_of(t)),
@@ -454,7 +461,7 @@ pub fn evaluate(case: &Case, with_runtime_sweep: bool) -> Eval {
             Err(_) => {
                 labels.push("rejected".into());
                 match s.set(&key, &value) {
-                    Err(SqlErr::Timeout) => return Eval::Inconclusive("timeout in SET".into()),
+                    Err(SqlErr::Timeout) => return Eval::Inconclusive("SET timed out or could not be parsed under the session's parser options".into()),
                     Ok(()) => {
                         return Eval::Finding(Finding { class: format!("sql-set-accepts-invalid:{key}"), message: format!("ConfigOptions::set({key:?}, {value:?}) fails but SET {key} = {} succeeds", quote(&value)) });
                     }
@@ -472,7 +479,7 @@ pub fn evaluate(case: &Case, with_runtime_sweep: bool) -> Eval {
                 }
                 labels.push("accepted".into());
                 match s.set(&key, &value) {
-                    Err(SqlErr::Timeout) => return Eval::Inconclusive("timeout in SET".into()),
+                    Err(SqlErr::Timeout) => return Eval::Inconclusive("SET timed out or could not be parsed under the session's parser options".into()),
                     Err(SqlErr::Failed(e)) => {
                         return Eval::Finding(Finding { class: format!("sql-set-rejects-valid:{key}"), message: format!("ConfigOptions::set({key:?}, {value:?}) succeeds but SET {key} = {} fails: {}", quote(&value), truncate(&e, 300)) });
                     }
@@ -514,7 +521,7 @@ pub fn evaluate(case: &Case, with_runtime_sweep: bool) -> Eval {
                     }
                     if sql_safe(t) {
                         match s.set(&key, t) {
-                            Err(SqlErr::Timeout) => return Eval::Inconclusive("timeout in SET".into()),
+                            Err(SqlErr::Timeout) => return Eval::Inconclusive("SET timed out or could not be parsed under the session's parser options".into()),
                             Err(SqlErr::Failed(e)) => {
                                 return Eval::Finding(Finding { class: format!("reported-text-rejected:{key}"), message: format!("after SET {key} = {} SHOW reports {t:?}, which SET rejects: {}", quote(&value), truncate(&e, 300)) });
                             }
